@@ -209,7 +209,7 @@ func parseParagraph(input string) (Rules, error) {
 //	[]string{"owner", "@{user_config_dirs}/powerdevilrc{,.@{rand6}}", "rwl", "->", "@{user_config_dirs}/#@{int}"}
 func tokenizeRule(str string) []string {
 	var currentToken strings.Builder
-	isVariable, wasTokPLUS, quoted := false, false, false
+	isVariable, wasTokPLUS, quoted, assigned := false, false, false, false
 
 	blockStack := []rune{}
 	tokens := make([]string, 0, len(str)/2)
@@ -225,8 +225,8 @@ func tokenizeRule(str string) []string {
 				currentToken.Reset()
 			}
 
-		case (r == '+' || r == '=') && len(blockStack) == 0 && !quoted && isVariable:
-			// Handle variable assignment
+		case (r == '+' || r == '=') && len(blockStack) == 0 && !quoted && isVariable && !assigned:
+			// Handle variable assignment, only the first = or += is the operator
 			if currentToken.Len() != 0 {
 				tokens = append(tokens, currentToken.String())
 				currentToken.Reset()
@@ -237,6 +237,7 @@ func tokenizeRule(str string) []string {
 				tokens = append(tokens, string(r))
 			}
 			wasTokPLUS = (r == '+')
+			assigned = (r == '=')
 
 		case r == '"' && len(blockStack) == 0:
 			quoted = !quoted
